@@ -204,6 +204,25 @@ Definition dec_follows (W tail : list N) (st : rc_enc) (out : list N) (dst : rc_
   d_range dst = e_range st /\ d_code dst + Vv st out = Dw W (nsh st out) /\
   bs = skipn (nsh st out + 5) W ++ tail.
 
+Lemma enc_normalize_S : forall fu st,
+  enc_normalize (S fu) st =
+  if e_range st <? 16777216 then
+    let '(st1, out1) := shift_low (with_range st ((e_range st * 256) mod 4294967296)) in
+    let '(st2, out2) := enc_normalize fu st1 in (st2, out1 ++ out2)
+  else (st, []).
+Proof. reflexivity. Qed.
+
+Lemma dec_normalize_rc_S : forall fu st bs,
+  dec_normalize_rc (S fu) st bs =
+  if d_range st <? 16777216 then
+    match bs with
+    | [] => None
+    | b :: r => dec_normalize_rc fu {| d_range := (d_range st * 256) mod 4294967296;
+                                       d_code := (d_code st * 256) mod 4294967296 + b |} r
+    end
+  else Some (st, bs).
+Proof. reflexivity. Qed.
+
 Lemma norm_spec : forall fuel st out st' o,
   einv st out (e_range st) -> e_range st < 4294967296 ->
   enc_normalize fuel st = (st', o) ->
@@ -221,13 +240,10 @@ Proof.
     { change (N.of_nat 0) with 0. rewrite N.pow_0_r. lia. }
     intros W HW Hnest. split; [exact Hnest|].
     intros tail dst bs Hf. exists dst, bs. split; [reflexivity|exact Hf].
-  - cbn [enc_normalize] in Hn. unfold TOP in Hn.
+  - rewrite enc_normalize_S in Hn.
     destruct (e_range st <? 16777216) eqn:Elt.
     + apply N.ltb_lt in Elt.
-      change {| e_range := (e_range st * 256) mod TWO32; e_low := e_low st; e_carry := e_carry st;
-                e_cache := e_cache st; e_ffnum := e_ffnum st |}
-        with (with_range st ((e_range st * 256) mod TWO32)) in Hn.
-      unfold TWO32 in Hn. rewrite (N.mod_small (e_range st * 256)) in Hn by lia.
+      rewrite (N.mod_small (e_range st * 256)) in Hn by lia.
       destruct (shift_low (with_range st (e_range st * 256))) as [st1 o1] eqn:Esh.
       destruct (enc_normalize fu st1) as [st2 o2] eqn:En.
       injection Hn as Hst Ho. subst st' o.
@@ -249,7 +265,7 @@ Proof.
       split.
       { unfold nest. split; [lia|]. split; lia. }
       intros tail dst bs (Hdr & Hdc & Hbs).
-      cbn [dec_normalize_rc]. unfold TOP, TWO32. rewrite Hdr.
+      rewrite dec_normalize_rc_S. rewrite Hdr.
       replace (e_range st <? 16777216) with true by (symmetry; apply N.ltb_lt; exact Elt).
       rewrite Hbs, Hsk. cbn [app].
       apply Hdec1. unfold dec_follows. cbn [d_range d_code]. rewrite Hn1, HV1, Hr1.
@@ -259,7 +275,148 @@ Proof.
       split; [exact Hinv|]. split; [exact Hrng|]. split; [intros _; exact Elt|].
       intros W HW Hnest. split; [exact Hnest|].
       intros tail dst bs Hf. exists dst, bs. split; [|exact Hf].
-      cbn [dec_normalize_rc]. unfold TOP. destruct Hf as (Hdr & _). rewrite Hdr.
+      rewrite dec_normalize_rc_S. destruct Hf as (Hdr & _). rewrite Hdr.
       replace (e_range st <? 16777216) with false by (symmetry; apply N.ltb_ge; exact Elt).
       reflexivity.
 Qed.
+
+(* ---------- range_encode ---------- *)
+
+Definition enc_mid (st : rc_enc) (a b : N) : rc_enc :=
+  {| e_range := b; e_low := (e_low st + a) mod 4294967296;
+     e_carry := e_carry st || ((e_low st + a) mod 4294967296 <? e_low st);
+     e_cache := e_cache st; e_ffnum := e_ffnum st |}.
+
+Lemma rc_encode_eq : forall st acc f tot,
+  rc_encode st acc f tot =
+  if tot =? 0 then None
+  else if (4294967296 <=? acc * (e_range st / tot)) || (4294967296 <=? e_range st / tot * f) then None
+       else Some (enc_normalize 4 (enc_mid st (acc * (e_range st / tot)) (e_range st / tot * f))).
+Proof. reflexivity. Qed.
+
+(* the arithmetic of one coding step *)
+Lemma step_arith : forall R tot acc f, 16777216 <= R -> 1 <= f -> acc + f <= tot -> tot <= 65535 ->
+  let r := R / tot in 1 <= r /\ acc * r + r * f <= R /\ 1 <= r * f.
+Proof.
+  intros R tot acc f HR Hf Hsum Htot r.
+  assert (Hr : tot * r <= R) by (apply N.mul_div_le; lia).
+  assert (Hr1 : 1 <= r) by (apply N.div_le_lower_bound; lia).
+  assert (Hm : (acc + f) * r <= tot * r) by (apply N.mul_le_mono_r; exact Hsum).
+  assert (Hf1 : 1 * 1 <= r * f) by (apply N.mul_le_mono; assumption).
+  split; [exact Hr1|]. split; lia.
+Qed.
+
+Lemma mid_spec : forall st out a b, enc_ok st out -> 1 <= b -> a + b <= e_range st ->
+  einv (enc_mid st a b) out b /\ Vv (enc_mid st a b) out = Vv st out + a /\
+  nsh (enc_mid st a b) out = nsh st out.
+Proof.
+  intros [rng low carry cache ff] out a b ((Hlow & Hcache & Hout & HR & HI2 & HI4) & Hr1 & Hr2) Hb Hab.
+  unfold einv, enc_mid, Vv, Yv, Bv, nsh, b2n in *. cbn [e_range e_low e_carry e_cache e_ffnum] in *.
+  assert (HP : 1 <= 256 ^ ff) by (pose proof (N.pow_nonzero 256 ff); lia).
+  set (X := bytes_val out) in *. set (P := 256 ^ ff) in *.
+  assert (HY : 1 <= (X * 256 + cache + 1) * P).
+  { pose proof (N.mul_le_mono 1 (X * 256 + cache + 1) 1 P ltac:(lia) HP) as Hm. lia. }
+  set (Y := (X * 256 + cache + 1) * P) in *.
+  destruct carry; cbn [orb].
+  - specialize (HI4 eq_refl). rewrite (N.mod_small (low + a)) by lia.
+    repeat split; try lia; try exact Hout.
+  - clear HI4. destruct ((low + a) mod 4294967296 <? low) eqn:Ew.
+    + apply N.ltb_lt in Ew. repeat split; try lia; try exact Hout.
+    + apply N.ltb_ge in Ew. repeat split; try lia; try exact Hout.
+Qed.
+
+Lemma encode_spec : forall st out acc f tot,
+  enc_ok st out -> 1 <= f -> acc + f <= tot -> tot <= 65535 ->
+  exists st' o, rc_encode st acc f tot = Some (st', o) /\ enc_ok st' (out ++ o) /\
+    forall W, Forall (fun x => x < 256) W -> nest W st' (out ++ o) (e_range st') ->
+      nest W st out (e_range st) /\
+      forall tail dst bs, dec_follows W tail st out dst bs ->
+        let r := d_range dst / tot in
+        r <> 0 /\ acc <= d_code dst / r /\ d_code dst / r < acc + f /\
+        acc * r < 4294967296 /\ acc * r <= d_code dst /\ r * f < 4294967296 /\
+        exists dst' bs',
+          dec_normalize_rc 4 {| d_range := r * f; d_code := d_code dst - acc * r |} bs = Some (dst', bs') /\
+          dec_follows W tail st' (out ++ o) dst' bs'.
+Proof.
+  intros st out acc f tot Hok Hf Hsum Htot.
+  pose proof Hok as (Hinv & Hr1 & Hr2).
+  destruct (step_arith (e_range st) tot acc f Hr1 Hf Hsum Htot) as (Hr & Hab & Hb).
+  set (r := e_range st / tot) in *.
+  destruct (mid_spec st out (acc * r) (r * f) Hok Hb Hab) as (Hmi & Hmv & Hmn).
+  rewrite rc_encode_eq. fold r.
+  replace (tot =? 0) with false by (symmetry; apply N.eqb_neq; lia).
+  replace (4294967296 <=? acc * r) with false by (symmetry; apply N.leb_gt; lia).
+  replace (4294967296 <=? r * f) with false by (symmetry; apply N.leb_gt; lia).
+  cbn [orb].
+  destruct (enc_normalize 4 (enc_mid st (acc * r) (r * f))) as [st' o] eqn:En.
+  exists st', o. split; [reflexivity|].
+  destruct (norm_spec 4 (enc_mid st (acc * r) (r * f)) out st' o) as (Hinv' & Hrng' & Htop & Hdec);
+    [exact Hmi|cbn [enc_mid e_range]; lia|exact En|].
+  cbn [enc_mid e_range] in Htop. change (256 ^ N.of_nat 4) with 4294967296 in Htop.
+  split; [unfold enc_ok; split; [exact Hinv'|split; [apply Htop; lia|exact Hrng']]|].
+  intros W HW Hnest. destruct (Hdec W HW Hnest) as ((HL & HDa & HDb) & Hdec1).
+  rewrite Hmn in HL, HDa, HDb. rewrite Hmv in HDa, HDb. cbn [enc_mid e_range] in HDb.
+  split; [unfold nest; split; [exact HL|split; lia]|].
+  intros tail dst bs (Hdr & Hdc & Hbs). rewrite Hdr. fold r.
+  split; [lia|].
+  split; [apply N.div_le_lower_bound; lia|].
+  split; [apply N.div_lt_upper_bound; lia|].
+  split; [lia|]. split; [lia|]. split; [lia|].
+  apply Hdec1. unfold dec_follows. cbn [d_range d_code enc_mid e_range].
+  rewrite Hmv, Hmn. split; [reflexivity|]. split; [lia|exact Hbs].
+Qed.
+
+(* ---------- range_encode_end ---------- *)
+
+Lemma rc_encode_end_S : forall k st,
+  rc_encode_end (S k) st = let '(st1, out) := shift_low st in out ++ rc_encode_end k st1.
+Proof. reflexivity. Qed.
+
+Lemma end_spec : forall k st out, einv st out 1 ->
+  (e_low st * 256 ^ N.of_nat k) mod 4294967296 = 0 ->
+  Forall (fun b => b < 256) (out ++ rc_encode_end (S k) st) /\
+  length (out ++ rc_encode_end (S k) st) = (nsh st out + S k)%nat /\
+  bytes_val (out ++ rc_encode_end (S k) st) * 256 * 4294967296 = 256 ^ N.of_nat (S k) * Vv st out.
+Proof.
+  induction k as [|k IH]; intros st out Hinv Hz.
+  - change (N.of_nat 0) with 0 in Hz. rewrite N.pow_0_r in Hz.
+    assert (Hl0 : e_low st = 0) by (destruct Hinv as (Hl & _); lia).
+    rewrite rc_encode_end_S. destruct (shift_low st) as [st1 em] eqn:Esh.
+    change (rc_encode_end 0 st1) with (@nil N). rewrite app_nil_r.
+    destruct (shift_spec st out 1 1 st1 em Hinv ltac:(lia) ltac:(lia) ltac:(lia) Esh)
+      as (Hinv1 & HV1 & Hn1 & _ & Hlow1 & Hclean).
+    destruct (Hclean Hl0) as (Hc1 & Hf1 & Hcy1).
+    split; [destruct Hinv1 as (_ & _ & HF & _); exact HF|].
+    split.
+    + unfold nsh in Hn1. rewrite Hf1 in Hn1. unfold nsh. lia.
+    + change (256 ^ N.of_nat 1) with 256. rewrite <- HV1.
+      unfold Vv, Yv, b2n. rewrite Hc1, Hf1, Hcy1, Hlow1, Hl0, N.pow_0_r. lia.
+  - rewrite rc_encode_end_S. destruct (shift_low st) as [st1 em] eqn:Esh.
+    destruct (shift_spec st out 1 1 st1 em Hinv ltac:(lia) ltac:(lia) ltac:(lia) Esh)
+      as (Hinv1 & HV1 & Hn1 & _ & Hlow1 & _).
+    rewrite app_assoc.
+    destruct (IH st1 (out ++ em) Hinv1) as (HF & HL & HB).
+    { rewrite Hlow1. rewrite N.mul_mod_idemp_l by lia.
+      rewrite Nat2N.inj_succ, N.pow_succ_r' in Hz. rewrite <- Hz. f_equal. lia. }
+    split; [exact HF|]. split; [lia|].
+    rewrite HB, HV1. rewrite (Nat2N.inj_succ (S k)), (N.pow_succ_r' 256 (N.of_nat (S k))). lia.
+Qed.
+
+Lemma end_spec5 : forall st out, enc_ok st out ->
+  Forall (fun b => b < 256) (out ++ rc_encode_end 5 st) /\
+  nest (out ++ rc_encode_end 5 st) st out (e_range st).
+Proof.
+  intros st out (Hinv & Hr1 & Hr2).
+  destruct (end_spec 4 st out) as (HF & HL & HB).
+  - apply (einv_weaken st out (e_range st)); [exact Hinv|lia|lia].
+  - change (256 ^ N.of_nat 4) with 4294967296. apply N.mod_mul. lia.
+  - split; [exact HF|]. unfold nest, Dw. rewrite HL.
+    rewrite firstn_all2 by lia.
+    change (256 ^ N.of_nat 5) with 1099511627776 in HB.
+    split; [lia|]. split; lia.
+Qed.
+
+Print Assumptions shift_spec.
+Print Assumptions norm_spec.
+Print Assumptions encode_spec.
+Print Assumptions end_spec5.
